@@ -591,6 +591,11 @@ impl Rec {
                 self.panics += 1;
                 self.mix(label, 2);
                 let dec = label.split('.').next().unwrap_or(label);
+                if site.starts_with("src/props/") || site.starts_with("src/report") || site.starts_with("src/memstore") || site.starts_with("src/rng") {
+                    // a panic in the harness itself is a defect of the check, never a finding about TurDB
+                    self.raise(format!("C23/harness_bug/{}", site), "harness", json!({"op": label, "panic": msg}));
+                    return None;
+                }
                 let sig = format!("C23/{}/panic/{}", dec, site);
                 self.raise(sig, "no_panic", json!({"op": label, "panic": msg}));
                 None
@@ -1105,7 +1110,9 @@ fn exec_record(rec: &mut Rec, base: &Base, blobs: &[Blob], seed: u64) {
             }
             DataType::Vector => {
                 // read every element of the zero-copy slice so an out-of-bounds slice is observable
-                rec.run_res("RecordView.get_vector", || v.get_vector(i).map(|s| s.iter().map(|f| f.to_bits() as u64).sum::<u64>()));
+                if rec.run_res("RecordView.get_vector", || v.get_vector(i).map(|s| s.iter().map(|f| f.to_bits() as u64).sum::<u64>())).is_some() {
+                    rec.count("record_get_vector_zero_copy_reads", 1);
+                }
                 rec.run_res("RecordView.get_vector_copy", || v.get_vector_copy(i).map(|s| s.len()));
                 rec.run_res("RecordView.get_vector_opt", || v.get_vector_opt(i).map(|s| s.map(|x| x.len())));
             }
@@ -2472,7 +2479,7 @@ fn exec_btree_file(rec: &mut Rec, base: &Base, blobs: &[Blob], work: &Path) {
 }
 
 fn hnsw_vec(i: u64, dims: usize) -> Vec<f32> {
-    (0..dims).map(|d| ((i * 31 + d as u64 * 7) % 17) as f32 / 4.0).collect()
+    (0..dims).map(|d| (i.wrapping_mul(31).wrapping_add(d as u64 * 7) % 17) as f32 / 4.0).collect()
 }
 
 fn build_hnsw_file_bases(rng: &mut Rng, work: &Path) -> Vec<Base> {
@@ -2793,17 +2800,17 @@ struct UnitSpec {
 }
 
 const UNITS: &[UnitSpec] = &[
-    UnitSpec { name: "record", kind: Kind::Mem, quick: 12000, thorough: 240000, chunk_quick: 6000, chunk_thorough: 60000, hang_q: 2, hang_t: 4, raw_pct: 12, page_blobs: false },
-    UnitSpec { name: "jsonb", kind: Kind::Mem, quick: 24000, thorough: 480000, chunk_quick: 12000, chunk_thorough: 120000, hang_q: 2, hang_t: 4, raw_pct: 20, page_blobs: false },
-    UnitSpec { name: "array", kind: Kind::Mem, quick: 20000, thorough: 400000, chunk_quick: 10000, chunk_thorough: 100000, hang_q: 2, hang_t: 4, raw_pct: 20, page_blobs: false },
-    UnitSpec { name: "key", kind: Kind::Mem, quick: 60000, thorough: 1200000, chunk_quick: 30000, chunk_thorough: 300000, hang_q: 2, hang_t: 4, raw_pct: 25, page_blobs: false },
-    UnitSpec { name: "varint", kind: Kind::Mem, quick: 40000, thorough: 800000, chunk_quick: 40000, chunk_thorough: 400000, hang_q: 2, hang_t: 4, raw_pct: 50, page_blobs: false },
-    UnitSpec { name: "catalog", kind: Kind::Mem, quick: 24000, thorough: 480000, chunk_quick: 12000, chunk_thorough: 120000, hang_q: 2, hang_t: 4, raw_pct: 10, page_blobs: false },
-    UnitSpec { name: "header", kind: Kind::Mem, quick: 24000, thorough: 480000, chunk_quick: 24000, chunk_thorough: 240000, hang_q: 2, hang_t: 4, raw_pct: 5, page_blobs: false },
-    UnitSpec { name: "hnsw", kind: Kind::Mem, quick: 16000, thorough: 320000, chunk_quick: 8000, chunk_thorough: 80000, hang_q: 2, hang_t: 4, raw_pct: 8, page_blobs: true },
-    UnitSpec { name: "leaf", kind: Kind::Mem, quick: 8000, thorough: 160000, chunk_quick: 4000, chunk_thorough: 40000, hang_q: 2, hang_t: 4, raw_pct: 8, page_blobs: true },
-    UnitSpec { name: "interior", kind: Kind::Mem, quick: 16000, thorough: 320000, chunk_quick: 8000, chunk_thorough: 80000, hang_q: 2, hang_t: 4, raw_pct: 8, page_blobs: true },
-    UnitSpec { name: "btree", kind: Kind::Mem, quick: 1000, thorough: 20000, chunk_quick: 250, chunk_thorough: 2500, hang_q: 2, hang_t: 4, raw_pct: 0, page_blobs: true },
+    UnitSpec { name: "record", kind: Kind::Mem, quick: 24000, thorough: 240000, chunk_quick: 12000, chunk_thorough: 60000, hang_q: 2, hang_t: 4, raw_pct: 12, page_blobs: false },
+    UnitSpec { name: "jsonb", kind: Kind::Mem, quick: 48000, thorough: 480000, chunk_quick: 24000, chunk_thorough: 120000, hang_q: 2, hang_t: 4, raw_pct: 20, page_blobs: false },
+    UnitSpec { name: "array", kind: Kind::Mem, quick: 40000, thorough: 400000, chunk_quick: 20000, chunk_thorough: 100000, hang_q: 2, hang_t: 4, raw_pct: 20, page_blobs: false },
+    UnitSpec { name: "key", kind: Kind::Mem, quick: 120000, thorough: 1200000, chunk_quick: 60000, chunk_thorough: 300000, hang_q: 2, hang_t: 4, raw_pct: 25, page_blobs: false },
+    UnitSpec { name: "varint", kind: Kind::Mem, quick: 80000, thorough: 800000, chunk_quick: 80000, chunk_thorough: 400000, hang_q: 2, hang_t: 4, raw_pct: 50, page_blobs: false },
+    UnitSpec { name: "catalog", kind: Kind::Mem, quick: 48000, thorough: 480000, chunk_quick: 24000, chunk_thorough: 120000, hang_q: 2, hang_t: 4, raw_pct: 10, page_blobs: false },
+    UnitSpec { name: "header", kind: Kind::Mem, quick: 48000, thorough: 480000, chunk_quick: 48000, chunk_thorough: 240000, hang_q: 2, hang_t: 4, raw_pct: 5, page_blobs: false },
+    UnitSpec { name: "hnsw", kind: Kind::Mem, quick: 32000, thorough: 320000, chunk_quick: 16000, chunk_thorough: 80000, hang_q: 2, hang_t: 4, raw_pct: 8, page_blobs: true },
+    UnitSpec { name: "leaf", kind: Kind::Mem, quick: 16000, thorough: 160000, chunk_quick: 8000, chunk_thorough: 40000, hang_q: 2, hang_t: 4, raw_pct: 8, page_blobs: true },
+    UnitSpec { name: "interior", kind: Kind::Mem, quick: 32000, thorough: 320000, chunk_quick: 16000, chunk_thorough: 80000, hang_q: 2, hang_t: 4, raw_pct: 8, page_blobs: true },
+    UnitSpec { name: "btree", kind: Kind::Mem, quick: 2000, thorough: 20000, chunk_quick: 500, chunk_thorough: 2500, hang_q: 2, hang_t: 4, raw_pct: 0, page_blobs: true },
     UnitSpec { name: "catalog_file", kind: Kind::File, quick: 1000, thorough: 20000, chunk_quick: 500, chunk_thorough: 5000, hang_q: 2, hang_t: 4, raw_pct: 5, page_blobs: false },
     UnitSpec { name: "wal_file", kind: Kind::File, quick: 300, thorough: 6000, chunk_quick: 100, chunk_thorough: 1000, hang_q: 2, hang_t: 4, raw_pct: 3, page_blobs: false },
     UnitSpec { name: "btree_file", kind: Kind::File, quick: 400, thorough: 8000, chunk_quick: 50, chunk_thorough: 500, hang_q: 2, hang_t: 4, raw_pct: 0, page_blobs: true },
@@ -3271,6 +3278,10 @@ impl Agg {
         let mut sigmap = serde_json::Map::new();
         for (sig, s) in &self.sigs {
             let count = s.count.max(s.examples.len() as u64).max(1);
+            if sig.starts_with("C23/harness_bug/") {
+                ctx.inconclusive(&format!("the harness itself panicked ({} x{}): {}", sig, count, s.examples.first().map(|e| e["observed"].to_string()).unwrap_or_default()));
+                continue;
+            }
             sigmap.insert(sig.clone(), json!(count));
             let assertion = if s.assertion.is_empty() { "no_panic".to_string() } else { s.assertion.clone() };
             let detail = json!({"occurrences": count, "units": s.units, "minimized": s.minimized, "examples": s.examples});
